@@ -4,6 +4,7 @@
 //! reference §4.1 automaton, and the transport close code with the expected connection error.
 
 use crate::refimpl::frames as rf;
+use crate::refimpl::varint as rv;
 use crate::report::Report;
 use crate::sim::apps::{self, ClientOpts, Err as AErr, Ev, Msg, Out, Probe, ReqPlan, RespPlan, ServerOpts};
 use crate::sim::rawpeer as raw;
@@ -58,6 +59,9 @@ pub enum Tok {
     /// a HEADERS frame whose field section cannot be decoded (not part of the enumerated
     /// alphabet; used by the sampled generators): QPACK_DECOMPRESSION_FAILED, a connection error
     HeadersBadQpack,
+    /// the first bytes of a frame that never gets its rest (sampled generators only, always the
+    /// last token): cut off by FIN it is H3_FRAME_ERROR, on an open stream it is waited on
+    TruncatedFrame,
 }
 pub const ALPHABET: [Tok; 11] = [
     Tok::Headers,
@@ -186,6 +190,20 @@ fn tok_bytes(t: Tok, k: usize, first_headers: bool, side_is_server: bool) -> Vec
         }
         Tok::H2Reserved => rf::frame(*[0x2u64, 0x6, 0x8, 0x9].get(k % 4).unwrap(), &[0, 0, 0, 0, 1]),
         // dynamic-table reference without a table / static index out of range / string cut short
+        // type only / type + part of the length / header + part of the payload, of HEADERS and of
+        // frames of unknown type (partial DATA payloads are C02's: how much of them is handed out
+        // before the error is not prescribed)
+        Tok::TruncatedFrame => match k % 5 {
+            0 => vec![0x01],
+            1 => vec![0x01, 0x40],
+            2 => vec![0x01, 0x05, 0x00, 0x00],
+            3 => rv::encode(rf::unknown_type(4)).unwrap(),
+            _ => {
+                let mut v = rv::encode(rf::unknown_type(4)).unwrap();
+                v.extend([0x04, 0x00, 0xff]);
+                v
+            }
+        },
         Tok::HeadersBadQpack => raw::headers_frame(*[&[0x00u8, 0x00, 0x80][..], &[0x00, 0x00, 0xff, 0x24], &[0x00, 0x00, 0x23, 0x61, 0x62]].get(k % 3).unwrap()),
     }
 }
@@ -221,6 +239,24 @@ pub fn expected(seq: &[Tok], ending: Ending, server: bool) -> Expected {
     for (k, t) in seq.iter().enumerate() {
         if matches!(t, Tok::Unknown0 | Tok::UnknownN) {
             continue;
+        }
+        if *t == Tok::TruncatedFrame {
+            flush(&mut steps, &mut body);
+            match ending {
+                Ending::Fin => {
+                    // after the trailers the message is judged when the application asks for them
+                    steps.push(Step::ConnErr(rf::H3_FRAME_ERROR));
+                    return Expected { steps, dont_care: None };
+                }
+                Ending::Open => {
+                    if st == St::After {
+                        // trailers are only handed out once what follows them is known
+                    }
+                    steps.push(Step::Pending);
+                    return Expected { steps, dont_care: None };
+                }
+                Ending::Reset(_) => return Expected { steps, dont_care: Some("reset inside a frame") },
+            }
         }
         if *t == Tok::PushPromise && !server {
             flush(&mut steps, &mut body);
@@ -692,6 +728,14 @@ fn run_case(gen: &str, index: u64, seed: u64, _tier: Tier, rep: &mut Report) {
                 _ => Ending::Open,
             };
             let side = if rng.bool() { SERVER } else { CLIENT };
+            let mut seq = seq;
+            if rng.chance(1, 5) {
+                // ends inside a frame: cut the sequence anywhere and append the beginning of a frame
+                let keep = rng.usize(seq.len() + 1);
+                seq.truncate(keep);
+                seq.push(Tok::TruncatedFrame);
+                rep.count("sequences_ending_inside_a_frame");
+            }
             check_sequence(&seq, ending, side, rng.next(), rep);
         }
         _ => {}
